@@ -37,6 +37,12 @@ pub fn quiet_panics() {
         } else {
             "<non-string panic>".to_string()
         };
+        let th = std::thread::current();
+        let name = th.name().unwrap_or("");
+        if !(name.starts_with("fxv-") || name.starts_with("flexi_logger")) {
+            // not a scenario thread: this is a failure of the machinery itself
+            eprintln!("MACHINERY: panic in thread {name:?} at {loc}: {msg}");
+        }
         LAST_PANIC.with(|p| *p.borrow_mut() = Some(format!("{loc}: {msg}")));
     }));
 }
